@@ -60,6 +60,7 @@ pub fn subject_cfg(rng: &mut Rng, tier: Tier) -> GenCfg {
         allow_not: rng.chance(3, 4),
         formats_have_path: rng.chance(1, 2),
         rich_formats: rng.chance(1, 2),
+        likely_true: 0,
     }
 }
 
